@@ -74,14 +74,15 @@ Section Obj.
   Variable rp : bool -> bool -> list (ustring * jvalue) -> result pval.
   Variable ro : ver -> list (ustring * ustring) -> bool -> list (ustring * jvalue) -> result pval.
 
+  Variable P : ustring -> bool.
   Hypothesis Hpad : vr_year_pad vr = true.
-  Hypothesis Hrc : rc_idem rc.
+  Hypothesis Hrc : rc_idem rc P.
 
   Notation CK := (clean_kind vr w rc rp ro).
   Notation CP := (check_property vr ev w rc rp ro).
 
   Definition slot_ok (s : slot) : bool :=
-    (kind_proved vr (skind s) || ustr_eqb (sname s) ext_key) &&
+    (kind_proved vr P (skind s) || ustr_eqb (sname s) ext_key) &&
     match sdef s with
     | DNone => true
     | DFixed => match skind s with KFixed _ _ => true | _ => false end
@@ -238,7 +239,7 @@ Section Obj.
     destruct (alookup (sname sl) K) as [j |] eqn:Ek.
     - (* a value was given *)
       destruct (HK j eq_refl) as [Hn [Hp Hne]]. rewrite Hn in H.
-      assert (Hkp : kind_proved vr (skind sl) = true).
+      assert (Hkp : kind_proved vr P (skind sl) = true).
       { apply orb_true_iff in Hkind. destruct Hkind as [Hk | Hk]; auto. apply ustr_eqb_eq in Hk. contradiction. }
       destruct (CP c sl allow interop vrefs (aset (sname sl) (PJ j) s)) as [[a b] | |] eqn:Ec; try discriminate.
       inv_ok H. cbn [fst snd] in *.
@@ -253,9 +254,9 @@ Section Obj.
         cbn [clean_kind] in Hv. pose proof (clean_bool_flag _ _ _ Hv) as Hb. subst b.
         cbn [clean_kind clean_bool]. unfold bind. rewrite Hr. rewrite aset_aset. reflexivity.
       + rewrite HK'.
-        rewrite (clean_kind_not_nullish vr w rc rp ro Hrc (skind sl) allow interop j v b Hkp Hp Hn Hv).
+        rewrite (clean_kind_not_nullish vr w rc rp ro P Hrc (skind sl) allow interop j v b Hkp Hp Hn Hv).
         rewrite (cp_given sl (encode false v) s v b); auto.
-        eapply (clean_kind_idem vr w rc rp ro Hpad Hrc); eauto.
+        eapply (clean_kind_idem vr w rc rp ro Hpad P Hrc); eauto.
     - (* nothing was given *)
       destruct (CP c sl allow interop vrefs s) as [[a b] | |] eqn:Ec; try discriminate.
       inv_ok H. cbn [fst snd] in *.
@@ -476,9 +477,9 @@ Section Obj.
   Qed.
   Lemma usort_nil : forall l, match usort l with [] => true | _ => false end = match l with [] => true | _ => false end.
   Proof.
-    intros l. pose proof (usort_perm l) as P. destruct l as [| x r].
+    intros l. pose proof (usort_perm l) as Pm. destruct l as [| x r].
     - reflexivity.
-    - destruct (usort (x :: r)) eqn:E; auto. apply Permutation_nil in P. discriminate.
+    - destruct (usort (x :: r)) eqn:E; auto. apply Permutation_nil in Pm. discriminate.
   Qed.
 
   Lemma slot_of_unique : forall sl, In sl (cslots c) -> slot_of c (sname sl) = Some sl.
@@ -611,13 +612,396 @@ Section Obj.
     destruct (alookup n S); reflexivity.
   Qed.
 
+  Lemma akeys_written_gen : forall (D : list ustring) S,
+    map fst (enc_members false (filter (fun kv : ustring * pval => false || negb (mem_ustr (fst kv) D)) S)) =
+    filter (fun k => negb (mem_ustr k D)) (map fst S).
+  Proof.
+    intros D. unfold enc_members. induction S as [| [k x] r IH]; [reflexivity |].
+    cbn [filter map fst orb]. destruct (negb (mem_ustr k D)); cbn [map fst]; [f_equal |]; exact IH.
+  Qed.
+
   Lemma akeys_written : forall S,
     akeys (written S) = filter (fun k => negb (mem_ustr k (defaulted_names c S))) (map fst S).
+  Proof. intros S. unfold written, akeys, kept. apply akeys_written_gen. Qed.
+
+  Lemma NoDup_app_disj : forall (A : Type) (l1 l2 : list A),
+    NoDup l1 -> NoDup l2 -> (forall x, In x l1 -> ~ In x l2) -> NoDup (l1 ++ l2).
   Proof.
-    intros S. unfold written, akeys, enc_members, kept. rewrite map_map. cbn [fst orb].
-    induction S as [| [k x] r IH]; cbn [filter map fst]; auto.
-    destruct (negb (mem_ustr k (defaulted_names c ((k, x) :: r)))) eqn:E; cbn [map fst].
-    - f_equal.
-      (* the filter predicate does not change along the induction: it is fixed by the outer S *)
-  Abort.
+    induction l1 as [| a r IH]; intros l2 N1 N2 D; cbn [app]; auto.
+    inversion N1; subst. constructor.
+    - intros H. apply in_app_or in H. destruct H as [H | H]; [contradiction |]. apply (D a); [left; reflexivity | exact H].
+    - apply IH; auto. intros x Hx. apply D. right. exact Hx.
+  Qed.
+
+  Lemma slot_of_none : forall n, notPN n = true -> slot_of c n = None.
+  Proof.
+    intros n H. unfold notPN, PN in H. apply negb_true_iff in H.
+    unfold slot_of. destruct (find (fun s => ustr_eqb (sname s) n) (cslots c)) as [sl |] eqn:E; auto.
+    apply find_some in E. destruct E as [Hin E]. apply ustr_eqb_eq in E. subst n.
+    assert (mem_ustr (sname sl) (map sname (cslots c)) = true) by (apply mem_ustr_In; apply in_map; exact Hin). congruence.
+  Qed.
+
+  Lemma extra_match : forall (A : Type) (E : list ustring) (b : bool) (x y : A),
+    (E = [] \/ b = true) -> match E, b with | _ :: _, false => x | _, _ => y end = y.
+  Proof. intros A E b x y [H | H]; subst; [reflexivity |]. destruct E; reflexivity. Qed.
+
+  Lemma loop_custom_stored : forall K l s hc S hcf n j,
+    NoDup l -> In n l -> slot_of c n = None -> alookup n K = Some j -> nullish j = false ->
+    LOOP K [] [] l s hc = Ok (S, hcf) -> amem n S = true.
+  Proof.
+    induction l as [| m rest IH]; intros s hc S hcf n j ND Hin Hs Hk Hn H; [contradiction |].
+    rewrite loop_cons in H. unfold bind in H.
+    destruct (step K m s hc) as [[s1 h1] | |] eqn:Es; try discriminate. cbn [fst snd] in H.
+    inversion ND; subst. destruct Hin as [E | Hin].
+    - subst m. unfold amem. rewrite (loop_frame _ _ _ _ _ _ n H H2).
+      rewrite (step_custom_stored _ _ _ _ _ _ _ Hs Hk Hn Es). reflexivity.
+    - eapply IH; eauto.
+  Qed.
+
+  Lemma loop_slot_absent : forall K l s hc S hcf n sl,
+    NoDup l -> amem n s = false -> slot_of c n = Some sl -> sdef sl = DNone -> alookup n K = None ->
+    LOOP K [] [] l s hc = Ok (S, hcf) -> amem n S = false.
+  Proof.
+    induction l as [| m rest IH]; intros s hc S hcf n sl ND Hf Hs Hd Hk H.
+    - cbn [assign_loop] in H. inv_ok H. exact Hf.
+    - rewrite loop_cons in H. unfold bind in H.
+      destruct (step K m s hc) as [[s1 h1] | |] eqn:Es; try discriminate. cbn [fst snd] in H.
+      inversion ND; subst.
+      assert (Hf1 : amem n s1 = false).
+      { destruct (ustr_eqb m n) eqn:E.
+        - apply ustr_eqb_eq in E. subst m. eapply step_absent_stays; eauto.
+        - unfold amem. rewrite (sos_frame _ _ _ n (step_shape _ _ _ _ _ _ Es)).
+          + exact Hf.
+          + intros E2. subst. rewrite ustr_eqb_refl in E. discriminate. }
+      exact (IH s1 h1 S hcf n sl H3 Hf1 Hs Hd Hk H).
+  Qed.
+
+  Lemma step_given_stored : forall K n s hc s' hc' j,
+    alookup n K = Some j -> nullish j = false -> step K n s hc = Ok (s', hc') -> amem n s' = true.
+  Proof.
+    intros K n s hc s' hc' j Hk Hn H. unfold step in H. rewrite assign_raw_spec in H. rewrite Hk, Hn in H.
+    destruct (slot_of c n) as [sl |] eqn:Es.
+    - destruct (slot_of_In n sl Es) as [_ En]. subst n. unfold bind in H.
+      destruct (CP c sl allow interop vrefs (aset (sname sl) (PJ j) s)) as [[a b] | |] eqn:Ec; try discriminate.
+      inv_ok H. destruct (cp_given_inv _ _ _ _ _ Ec) as [v [_ [_ Ea]]]. cbn [fst]. rewrite Ea. unfold amem. rewrite alookup_aset_same. reflexivity.
+    - inv_ok H. unfold amem. rewrite alookup_aset_same. reflexivity.
+  Qed.
+
+  Lemma loop_given_stored : forall K l s hc S hcf n j,
+    NoDup l -> In n l -> alookup n K = Some j -> nullish j = false ->
+    LOOP K [] [] l s hc = Ok (S, hcf) -> amem n S = true.
+  Proof.
+    induction l as [| m rest IH]; intros s hc S hcf n j ND Hin Hk Hn H; [contradiction |].
+    rewrite loop_cons in H. unfold bind in H.
+    destruct (step K m s hc) as [[s1 h1] | |] eqn:Es; try discriminate. cbn [fst snd] in H.
+    inversion ND; subst. destruct Hin as [E | Hin].
+    - subst m. unfold amem. rewrite (loop_frame _ _ _ _ _ _ n H H2).
+      pose proof (step_given_stored _ _ _ _ _ _ _ Hk Hn Es) as Hs. unfold amem in Hs. exact Hs.
+    - eapply IH; eauto.
+  Qed.
+
+  Theorem cg_idem : forall fuel kw o,
+    plain_dict kw = true ->
+    CG fuel c allow interop kw [] vrefs = Ok o ->
+    exists S hc, o = PObject (cid c) S (defaulted_names c S) hc /\
+      CG fuel c allow interop (written S) [] vrefs = Ok o /\
+      (forall m, amem m (written S) = true -> In m PN \/ amem m kw = true) /\
+      (forall m, amem m kw = true -> amem m S = true).
+  Proof.
+    intros fuel kw o Hp H.
+    destruct (plain_dict_no_key kw Hp) as [Hcp Hext].
+    apply amem_alookup_none in Hcp. apply amem_alookup_none in Hext.
+    rewrite (cg_plain fuel kw Hcp Hext) in H. cbv zeta in H.
+    set (E := filter notPN (akeys kw)) in *.
+    set (AC := udedup (filter notPN (E ++ []))) in *.
+    assert (Hchk : E = [] \/ allow = true).
+    { destruct E; [left; reflexivity |]. destruct allow eqn:Ea; [right; reflexivity | discriminate H]. }
+    rewrite (extra_match _ E allow _ _ Hchk) in H.
+    match type of H with (if ?g then _ else _) = _ => destruct g eqn:Epre; try discriminate end.
+    unfold bind in H.
+    destruct (LOOP kw [] [] (PN ++ ([] ++ usort AC)) [] (flag0 AC)) as [[S hc0] | |] eqn:EL; try discriminate.
+    destruct (cg_tail_shape _ _ _ _ _ H) as [hc Ho]. subst o.
+    exists S, hc. split; [reflexivity |].
+    (* facts about the custom names *)
+    assert (HAC : forall x, In x AC -> notPN x = true /\ In x (akeys kw)).
+    { intros x Hx. unfold AC in Hx. apply (proj1 (In_udedup _ _)) in Hx. apply filter_In in Hx. destruct Hx as [Hx1 Hx2].
+      rewrite app_nil_r in Hx1. unfold E in Hx1. apply filter_In in Hx1. tauto. }
+    assert (HND : NoDup (PN ++ ([] ++ usort AC))).
+    { cbn [app]. apply NoDup_app_disj; [exact Hnodup | apply NoDup_usort; apply NoDup_udedup |].
+      intros x Hx Hx2. apply (proj1 (In_usort _ _)) in Hx2. destruct (HAC x Hx2) as [Hn _]. unfold notPN in Hn.
+      apply negb_true_iff in Hn. apply (proj2 (mem_ustr_In x PN)) in Hx. congruence. }
+    assert (Hfresh : forall n, In n (PN ++ ([] ++ usort AC)) -> amem n (@nil (ustring * pval)) = false) by reflexivity.
+    pose proof (loop_keys _ _ _ _ _ _ HND Hfresh EL) as Hkeys. cbn [map app] in Hkeys.
+    assert (Hkw : forall n j, alookup n kw = Some j -> nullish j = false /\ plain_json j = true /\ n <> ext_key).
+    { intros n j Hj. destruct (plain_dict_lookup kw n j Hp Hj) as [A B]. repeat split; auto.
+      intros En. subst n. rewrite Hext in Hj. discriminate. }
+    assert (Hstored : forall x, In x AC -> amem x S = true).
+    { intros x Hx. destruct (HAC x Hx) as [Hn Hk].
+      unfold akeys in Hk. apply in_map_iff in Hk. destruct Hk as [[k j] [Ek Hk]]. cbn [fst] in Ek. subst k.
+      assert (Hm : amem x kw = true) by (apply amem_In; apply in_map_iff; exists (x, j); auto).
+      unfold amem in Hm. destruct (alookup x kw) as [j' |] eqn:Ej; try discriminate.
+      destruct (Hkw x j' Ej) as [Hnn _].
+      eapply loop_custom_stored; [exact HND | | apply slot_of_none; exact Hn | exact Ej | exact Hnn | exact EL].
+      apply in_or_app. right. cbn [app]. apply (proj2 (In_usort _ _)). exact Hx. }
+    assert (HSkeys : forall m, amem m S = true -> In m PN \/ In m AC).
+    { intros m Hm. apply amem_In in Hm. rewrite Hkeys in Hm. apply filter_In in Hm. destruct Hm as [Hm _].
+      apply in_app_or in Hm. destruct Hm as [Hm | Hm]; [left; exact Hm | right]. cbn [app] in Hm. apply (proj1 (In_usort _ _)) in Hm. exact Hm. }
+    assert (Hwk : forall m, amem m (written S) = true -> amem m S = true).
+    { intros m Hm. unfold amem in *. rewrite alookup_written in Hm. destruct (alookup m S); auto. }
+    assert (Hres : forall sl, In sl (cslots c) -> mem_ustr (sname sl) reserved_names = false /\
+                    (sname sl = ext_key -> sdef sl = DNone)).
+    { intros sl Hin. rewrite forallb_forall in Hslots. pose proof (Hslots sl Hin) as Hok. unfold slot_ok in Hok.
+      apply andb_true_iff in Hok. destruct Hok as [Hok Hx]. apply andb_true_iff in Hok. destruct Hok as [_ Hr].
+      apply negb_true_iff in Hr. split; auto. intros En. rewrite En in Hx. rewrite ustr_eqb_refl in Hx. cbn [negb orb] in Hx.
+      destruct (sdef sl); try discriminate. reflexivity. }
+    assert (Hcp' : alookup cp_key (written S) = None).
+    { apply amem_alookup_none. destruct (amem cp_key (written S)) eqn:Em; auto. exfalso.
+      destruct (HSkeys _ (Hwk _ Em)) as [Hm | Hm].
+      - unfold PN in Hm. apply in_map_iff in Hm. destruct Hm as [sl [En Hin]]. destruct (Hres sl Hin) as [Hr _].
+        rewrite En in Hr. unfold cp_key, reserved_names in Hr. cbn [map mem_ustr] in Hr. rewrite ustr_eqb_refl in Hr. discriminate.
+      - destruct (HAC _ Hm) as [_ Hk]. assert (amem cp_key kw = true) by (apply amem_In; exact Hk).
+        unfold amem in H0. rewrite Hcp in H0. discriminate. }
+    assert (Hext' : alookup ext_key (written S) = None).
+    { apply amem_alookup_none. destruct (amem ext_key (written S)) eqn:Em; auto. exfalso.
+      pose proof (Hwk _ Em) as HmS.
+      destruct (HSkeys _ HmS) as [Hm | Hm].
+      - unfold PN in Hm. apply in_map_iff in Hm. destruct Hm as [sl [En Hin]]. destruct (Hres sl Hin) as [_ Hd].
+        assert (amem ext_key S = false).
+        { eapply (loop_slot_absent kw (PN ++ ([] ++ usort AC)) [] (flag0 AC) S hc0 ext_key sl HND);
+            [reflexivity | rewrite <- En; apply slot_of_unique; exact Hin | apply Hd; exact En | exact Hext | exact EL]. }
+        congruence.
+      - destruct (HAC _ Hm) as [_ Hk]. assert (amem ext_key kw = true) by (apply amem_In; exact Hk).
+        unfold amem in H0. rewrite Hext in H0. discriminate. }
+    assert (Hgiven : forall m, amem m kw = true -> amem m S = true).
+    { intros m Hm. unfold amem in Hm. destruct (alookup m kw) as [j |] eqn:Ej; try discriminate.
+      destruct (Hkw m j Ej) as [Hnn _].
+      eapply loop_given_stored; [exact HND | | exact Ej | exact Hnn | exact EL].
+      destruct (mem_ustr m PN) eqn:Epn.
+      - apply in_or_app. left. apply mem_ustr_In. exact Epn.
+      - apply in_or_app. right. cbn [app]. apply (proj2 (In_usort _ _)). unfold AC. apply (proj2 (In_udedup _ _)).
+        rewrite app_nil_r. apply filter_In. split; [| unfold notPN; rewrite Epn; reflexivity].
+        unfold E. apply filter_In. split; [| unfold notPN; rewrite Epn; reflexivity].
+        unfold akeys. apply alookup_In in Ej. apply (in_map fst) in Ej. exact Ej. }
+    split; [| split; [| exact Hgiven]].
+    2:{ intros m Hm. destruct (HSkeys _ (Hwk _ Hm)) as [A | A]; [left; exact A | right].
+        destruct (HAC _ A) as [_ Hk]. apply amem_In. exact Hk. }
+    (* the re-run *)
+    rewrite (cg_plain fuel (written S) Hcp' Hext'). cbv zeta.
+    assert (HE' : filter notPN (akeys (written S)) = usort AC).
+    { rewrite akeys_written. rewrite Hkeys. cbn [app]. rewrite !filter_app.
+      rewrite (filter_all_false _ notPN).
+      2:{ intros x Hx. apply filter_In in Hx. destruct Hx as [Hx _]. apply filter_In in Hx. destruct Hx as [Hx _].
+          unfold notPN. apply negb_false_iff. apply mem_ustr_In. exact Hx. }
+      cbn [app].
+      rewrite (filter_all_true _ (fun n => amem n S) (usort AC)) by (intros x Hx; apply Hstored; apply (proj1 (In_usort _ _)); exact Hx).
+      rewrite (filter_all_true _ (fun k => negb (mem_ustr k (defaulted_names c S))) (usort AC)).
+      2:{ intros x Hx. apply (proj1 (In_usort _ _)) in Hx. destruct (HAC x Hx) as [Hn _]. apply negb_true_iff.
+          destruct (mem_ustr x (defaulted_names c S)) eqn:Ed; auto. apply defaulted_are_slots in Ed.
+          unfold notPN, PN in Hn. rewrite Ed in Hn. discriminate. }
+      apply filter_all_true. intros x Hx. apply (proj1 (In_usort _ _)) in Hx. apply (HAC x Hx). }
+    rewrite HE'.
+    assert (HAC' : udedup (filter notPN (usort AC ++ [])) = usort AC).
+    { rewrite app_nil_r. rewrite filter_all_true by (intros x Hx; apply (proj1 (In_usort _ _)) in Hx; apply (HAC x Hx)).
+      apply udedup_NoDup_id. apply NoDup_usort. apply NoDup_udedup. }
+    rewrite HAC'.
+    assert (Hchk' : usort AC = [] \/ allow = true).
+    { destruct Hchk as [He | Ha]; [left | right; exact Ha]. unfold AC. rewrite He. reflexivity. }
+    rewrite (extra_match _ (usort AC) allow _ _ Hchk').
+    rewrite forallb_usort. rewrite Epre.
+    rewrite usort_idem.
+    assert (Hf0 : flag0 (usort AC) = flag0 AC).
+    { unfold flag0. destruct (vr_flag_from_stored vr); auto. pose proof (usort_nil AC) as Hn.
+      destruct (usort AC); destruct AC; auto; discriminate. }
+    rewrite Hf0.
+    rewrite (loop_rerun kw (written S) (defaulted_names c S) _ _ _ S hc0 HND Hfresh EL).
+    - cbn [bind]. rewrite (cg_tail_perm fuel AC (usort AC)); [exact H | intros f; apply existsb_usort].
+    - intros n j _. apply Hkw.
+    - intros n _. apply mem_defaulted.
+    - intros n _. apply alookup_written.
+  Qed.
+
+  (* ---------------------------------------------------------------- what a given value becomes *)
+  Lemma step_given_value : forall K n s hc s' hc' j,
+    alookup n K = Some j -> nullish j = false -> step K n s hc = Ok (s', hc') ->
+    match slot_of c n with
+    | None => alookup n s' = Some (PJ j)
+    | Some sl => exists v h, alookup n s' = Some v /\ CK (skind sl) allow interop j = Ok (v, h)
+    end.
+  Proof.
+    intros K n s hc s' hc' j Hk Hn H. unfold step in H. rewrite assign_raw_spec in H. rewrite Hk, Hn in H.
+    destruct (slot_of c n) as [sl |] eqn:Es.
+    - destruct (slot_of_In n sl Es) as [_ En]. subst n. unfold bind in H.
+      destruct (CP c sl allow interop vrefs (aset (sname sl) (PJ j) s)) as [[a b] | |] eqn:Ec; try discriminate.
+      inv_ok H. destruct (cp_given_inv _ _ _ _ _ Ec) as [v [Hv [_ Ea]]]. cbn [fst]. rewrite Ea.
+      exists v, b. rewrite alookup_aset_same. auto.
+    - inv_ok H. apply alookup_aset_same.
+  Qed.
+
+  Lemma loop_given_value : forall K l s hc S hcf n j,
+    NoDup l -> In n l -> alookup n K = Some j -> nullish j = false ->
+    LOOP K [] [] l s hc = Ok (S, hcf) ->
+    match slot_of c n with
+    | None => alookup n S = Some (PJ j)
+    | Some sl => exists v h, alookup n S = Some v /\ CK (skind sl) allow interop j = Ok (v, h)
+    end.
+  Proof.
+    induction l as [| m rest IH]; intros s hc S hcf n j ND Hin Hk Hn H; [contradiction |].
+    rewrite loop_cons in H. unfold bind in H.
+    destruct (step K m s hc) as [[s1 h1] | |] eqn:Es; try discriminate. cbn [fst snd] in H.
+    inversion ND; subst. destruct Hin as [E | Hin].
+    - subst m. rewrite (loop_frame _ _ _ _ _ _ n H H2). eapply step_given_value; eauto.
+    - eapply IH; eauto.
+  Qed.
+
+  (* what a successful construct_generic on plain input consists of *)
+  Lemma cg_unfold : forall fuel kw o,
+    plain_dict kw = true ->
+    CG fuel c allow interop kw [] vrefs = Ok o ->
+    exists AC S hc0 hc,
+      NoDup (PN ++ ([] ++ usort AC)) /\
+      (forall n, amem n kw = true -> In n (PN ++ ([] ++ usort AC))) /\
+      LOOP kw [] [] (PN ++ ([] ++ usort AC)) [] (flag0 AC) = Ok (S, hc0) /\
+      o = PObject (cid c) S (defaulted_names c S) hc.
+  Proof.
+    intros fuel kw o Hp H.
+    destruct (plain_dict_no_key kw Hp) as [Hcp Hext].
+    apply amem_alookup_none in Hcp. apply amem_alookup_none in Hext.
+    rewrite (cg_plain fuel kw Hcp Hext) in H. cbv zeta in H.
+    set (E := filter notPN (akeys kw)) in *.
+    set (AC := udedup (filter notPN (E ++ []))) in *.
+    assert (Hchk : E = [] \/ allow = true).
+    { destruct E; [left; reflexivity |]. destruct allow eqn:Ea; [right; reflexivity | discriminate H]. }
+    rewrite (extra_match _ E allow _ _ Hchk) in H.
+    match type of H with (if ?g then _ else _) = _ => destruct g eqn:Epre; try discriminate end.
+    unfold bind in H.
+    destruct (LOOP kw [] [] (PN ++ ([] ++ usort AC)) [] (flag0 AC)) as [[S hc0] | |] eqn:EL; try discriminate.
+    destruct (cg_tail_shape _ _ _ _ _ H) as [hc Ho]. subst o.
+    exists AC, S, hc0, hc.
+    assert (HAC : forall x, In x AC -> notPN x = true).
+    { intros x Hx. unfold AC in Hx. apply (proj1 (In_udedup _ _)) in Hx. apply filter_In in Hx. tauto. }
+    repeat split; auto.
+    - cbn [app]. apply NoDup_app_disj; [exact Hnodup | apply NoDup_usort; apply NoDup_udedup |].
+      intros x Hx Hx2. apply (proj1 (In_usort _ _)) in Hx2. pose proof (HAC x Hx2) as Hn. unfold notPN in Hn.
+      apply negb_true_iff in Hn. apply (proj2 (mem_ustr_In x PN)) in Hx. congruence.
+    - intros m Hm. destruct (mem_ustr m PN) eqn:Epn.
+      + apply in_or_app. left. apply mem_ustr_In. exact Epn.
+      + apply in_or_app. right. cbn [app]. apply (proj2 (In_usort _ _)). unfold AC. apply (proj2 (In_udedup _ _)).
+        rewrite app_nil_r. apply filter_In. split; [| unfold notPN; rewrite Epn; reflexivity].
+        unfold E. apply filter_In. split; [| unfold notPN; rewrite Epn; reflexivity].
+        apply amem_In in Hm. exact Hm.
+  Qed.
+
+  Lemma cg_given_value : forall fuel kw S dfl hc n j,
+    plain_dict kw = true ->
+    CG fuel c allow interop kw [] vrefs = Ok (PObject (cid c) S dfl hc) ->
+    alookup n kw = Some j ->
+    match slot_of c n with
+    | None => alookup n S = Some (PJ j)
+    | Some sl => exists v h, alookup n S = Some v /\ CK (skind sl) allow interop j = Ok (v, h)
+    end.
+  Proof.
+    intros fuel kw S dfl hc n j Hp H Hj.
+    destruct (cg_unfold fuel kw _ Hp H) as [AC [S' [hc0 [hc' [HND [Hin [EL Eo]]]]]]]. inversion Eo; subst.
+    destruct (plain_dict_lookup kw n j Hp Hj) as [Hn _].
+    eapply loop_given_value; [exact HND | | exact Hj | exact Hn | exact EL].
+    apply Hin. unfold amem. rewrite Hj. reflexivity.
+  Qed.
+
+  (* a name that was not given and has no default stays absent *)
+  Lemma loop_absent : forall K l s hc S hcf n,
+    alookup n K = None -> (forall sl, slot_of c n = Some sl -> sdef sl = DNone) -> amem n s = false ->
+    LOOP K [] [] l s hc = Ok (S, hcf) -> amem n S = false.
+  Proof.
+    induction l as [| m rest IH]; intros s hc S hcf n Hk Hd Hf H.
+    - cbn [assign_loop] in H. inv_ok H. exact Hf.
+    - rewrite loop_cons in H. unfold bind in H.
+      destruct (step K m s hc) as [[s1 h1] | |] eqn:Es; try discriminate. cbn [fst snd] in H.
+      assert (Hf1 : amem n s1 = false).
+      { destruct (ustr_eqb m n) eqn:E.
+        - apply ustr_eqb_eq in E. subst m. destruct (slot_of c n) as [sl |] eqn:Esl.
+          + eapply (step_absent_stays K n s hc s1 h1 sl); auto.
+          + unfold step in Es. rewrite assign_raw_spec in Es. rewrite Esl, Hk in Es. inv_ok Es. exact Hf.
+        - unfold amem. rewrite (sos_frame _ _ _ n (step_shape _ _ _ _ _ _ Es)); [exact Hf |].
+          intros E2. subst. rewrite ustr_eqb_refl in E. discriminate. }
+      exact (IH s1 h1 S hcf n Hk Hd Hf1 H).
+  Qed.
+
+  Lemma cg_absent : forall fuel kw S dfl hc n,
+    plain_dict kw = true ->
+    CG fuel c allow interop kw [] vrefs = Ok (PObject (cid c) S dfl hc) ->
+    alookup n kw = None ->
+    (forall sl, slot_of c n = Some sl -> sdef sl = DNone) ->
+    amem n S = false.
+  Proof.
+    intros fuel kw S dfl hc n Hp H Hn Hd.
+    destruct (cg_unfold fuel kw _ Hp H) as [AC [S' [hc0 [hc' [HND [Hin [EL Eo]]]]]]]. inversion Eo; subst.
+    exact (loop_absent kw _ [] _ S' hc0 n Hn Hd eq_refl EL).
+  Qed.
+
+  (* a slot with a default that was not given is filled *)
+  Lemma step_default_present : forall K n s hc s' hc' sl,
+    alookup n K = None -> amem n s = false -> slot_of c n = Some sl -> sdef sl <> DNone ->
+    step K n s hc = Ok (s', hc') ->
+    amem n s' = true /\
+    (forall fv al, skind sl = KFixed fv al -> sdef sl = DFixed -> alookup n s' = Some (PJ (JStr fv))).
+  Proof.
+    intros K n s hc s' hc' sl Hk Hf Hs Hd H. unfold step in H. rewrite assign_raw_spec in H. rewrite Hs, Hk in H.
+    destruct (slot_of_In n sl Hs) as [_ En]. subst n. apply amem_alookup_none in Hf.
+    unfold bind in H.
+    destruct (CP c sl allow interop vrefs s) as [[a b] | |] eqn:Ec; try discriminate. inv_ok H. cbn [fst].
+    unfold check_property, default_value, bind in Ec. rewrite Hf in Ec.
+    destruct (sdef sl) eqn:Ed; try contradiction.
+    - destruct (skind sl) eqn:Eknd; try discriminate. cbn [fst snd] in Ec.
+      unfold clean_present in Ec. rewrite alookup_aset_same in Ec. rewrite Eknd in Ec. cbn [clean_kind] in Ec.
+      rewrite jvalue_eqb_refl in Ec. unfold bind in Ec.
+      destruct (refs_ok c sl vrefs (PJ (JStr v))); try discriminate. inv_ok Ec. rewrite aset_aset.
+      unfold amem. rewrite alookup_aset_same. split; auto. intros fv al E _. inv E. reflexivity.
+    - destruct (skind sl) eqn:Eknd; try discriminate. unfold bind in Ec.
+      destruct (ts_clean_now (vr_year_pad vr) p c0 (e_now ev)) as [[us txt] | |]; try discriminate.
+      cbn [fst snd] in Ec. unfold clean_present in Ec. rewrite alookup_aset_same in Ec. inv_ok Ec.
+      unfold amem. rewrite alookup_aset_same. split; auto. intros fv al E. discriminate.
+    - destruct (skind sl) eqn:Eknd; try discriminate. cbn [fst snd] in Ec.
+      unfold clean_present in Ec. rewrite alookup_aset_same in Ec.
+      match type of Ec with match ?g with _ => _ end = _ => destruct g as [[v0 h0] | |]; try discriminate end.
+      unfold bind in Ec. destruct (refs_ok c sl vrefs v0); try discriminate. inv_ok Ec. rewrite aset_aset.
+      unfold amem. rewrite alookup_aset_same. split; auto. intros fv al E. discriminate.
+    - cbn [fst snd] in Ec. unfold clean_present in Ec. rewrite alookup_aset_same in Ec.
+      match type of Ec with match ?g with _ => _ end = _ => destruct g as [[v0 h0] | |]; try discriminate end.
+      unfold bind in Ec. destruct (refs_ok c sl vrefs v0); try discriminate. inv_ok Ec. rewrite aset_aset.
+      unfold amem. rewrite alookup_aset_same. split; auto. intros fv al _ E. discriminate.
+  Qed.
+
+  Lemma loop_default_present : forall K l s hc S hcf n sl,
+    NoDup l -> In n l -> (forall m, In m l -> amem m s = false) ->
+    alookup n K = None -> slot_of c n = Some sl -> sdef sl <> DNone ->
+    LOOP K [] [] l s hc = Ok (S, hcf) ->
+    amem n S = true /\
+    (forall fv al, skind sl = KFixed fv al -> sdef sl = DFixed -> alookup n S = Some (PJ (JStr fv))).
+  Proof.
+    induction l as [| m rest IH]; intros s hc S hcf n sl ND Hin Hfr Hk Hs Hd H; [contradiction |].
+    rewrite loop_cons in H. unfold bind in H.
+    destruct (step K m s hc) as [[s1 h1] | |] eqn:Es; try discriminate. cbn [fst snd] in H.
+    inversion ND; subst. destruct Hin as [E | Hin].
+    - subst m. unfold amem. rewrite (loop_frame _ _ _ _ _ _ n H H2).
+      destruct (step_default_present _ _ _ _ _ _ _ Hk (Hfr n (or_introl eq_refl)) Hs Hd Es) as [A B].
+      unfold amem in A. split; auto.
+    - eapply (IH s1 h1 S hcf n sl); eauto.
+      intros m0 Hm0. unfold amem. rewrite (sos_frame _ _ _ m0 (step_shape _ _ _ _ _ _ Es)).
+      + apply Hfr. right. exact Hm0.
+      + intros E2. subst. contradiction.
+  Qed.
+
+  Lemma cg_default_present : forall fuel kw S dfl hc n sl,
+    plain_dict kw = true ->
+    CG fuel c allow interop kw [] vrefs = Ok (PObject (cid c) S dfl hc) ->
+    alookup n kw = None -> slot_of c n = Some sl -> sdef sl <> DNone ->
+    amem n S = true /\
+    (forall fv al, skind sl = KFixed fv al -> sdef sl = DFixed -> alookup n S = Some (PJ (JStr fv))).
+  Proof.
+    intros fuel kw S dfl hc n sl Hp H Hn Hs Hd.
+    destruct (cg_unfold fuel kw _ Hp H) as [AC [S' [hc0 [hc' [HND [Hin [EL Eo]]]]]]]. inversion Eo; subst.
+    assert (Hinn : In n (PN ++ [] ++ usort AC)).
+    { apply in_or_app. left. destruct (slot_of_In n sl Hs) as [Hsl En]. subst n. unfold PN. apply in_map. exact Hsl. }
+    exact (loop_default_present kw _ [] _ S' hc0 n sl HND Hinn (fun _ _ => eq_refl) Hn Hs Hd EL).
+  Qed.
 End Obj.
